@@ -98,7 +98,8 @@ def run(chk, facts, tier):
         st = [s for tgt, op, val, s in stores(fn.body) if target_name(tgt) == 'current_opcode_' and op == '=' and val is not None and strip_casts(val).k == 'UnaryOperator' and strip_casts(val).o == '*' and is_name(strip_casts(val).c[0], 'value')]
         sw = fn.body.find(lambda n: n.k == 'SwitchStmt')
         ok = len(st) == 1 and len(sw) == 1 and precedes(fn, st[0], sw[0].child('cond')) and is_name(sw[0].child('cond'), 'current_opcode_')
-        chk.instance('response-clears-and-echoes', fn, 'current_opcode_ = *value before switch', ok, '' if ok else 'request opcode not recorded for the response', key='store opcode')
+        ok = ok and has_atom(guard_atoms(fn, st[0]), lambda n: is_name(n, FLAG), {'=='}, lambda o: cval(o) == 0)
+        chk.instance('response-clears-and-echoes', fn, 'current_opcode_ = *value after the busy test, before the switch', ok, '' if ok else 'the request opcode is not recorded for the response, or is overwritten by a request that is refused while a procedure is pending (the pending response then carries the wrong opcode)', key='store opcode')
     for fn in variants(facts, CP + 'csc_read_control_point', chk):
         clr = [s for tgt, op, val, s in stores(fn.body) if target_name(tgt) == FLAG and op == '=' and cval(val) == 0]
         ok = len(clr) >= 1 and not fn.guards(clr[0])
